@@ -10,7 +10,7 @@ RULE = ('functions from U({a,b,c},3) (quick: 200 seeded; thorough: all 1972) + 4
         'start=/end= at every name, autokwoargs with exception subsets, inadmissible selections (unknown, star, wrong kind, both '
         'kinds, positional-only after a regular parameter); each admissible decoration is compared with the native reference '
         'on sigtools.signature, inspect.signature and on all call shapes (0..capacity+2 positionals x all keyword subsets incl. '
-        'a foreign one); 30% of the admissible decorations are repeated with decorator objects that were already applied to another function. Every third class of the method forms makes falsy instances; a quarter of the decorated functions forward their star parameters to a callable with regular parameters of its own (their sigtools.signature is then not compared: discovery adds to it). After a second layer was stacked on a decorated callable, the inner callable is compared with itself before (signature, behaviour). Non-trivial: every decoration; distinct by (function, decorators, placement).')
+        'a foreign one); 30% of the admissible decorations are repeated with decorator objects that were already applied to another function. Every third class of the method forms makes falsy instances; a quarter of the decorated functions forward their star parameters to a callable with regular parameters of its own (their sigtools.signature is then not compared: discovery adds to it). After a second layer was stacked on a decorated callable, the inner callable is compared with itself before (signature, behaviour). Several differently decorated attributes over one function (one stacked on another in a subclass) are looked up in seeded orders; modifiers are also applied to bound callables. Non-trivial: every decoration; distinct by (function, decorators, placement).')
 ASSUMPTIONS = ['calls passing a positional-only name by keyword alongside **kwargs are excluded (stated)',
                'converted keyword-only parameters are expected after *args and after the native keyword-only ones, relative order kept']
 
